@@ -142,6 +142,19 @@ func OnceFunc(f func()) func() {
 	return func() { o.Do(f) }
 }
 
+func OnceValue[T any](f func() T) func() T {
+	var o Once
+	var v T
+	return func() T { o.Do(func() { v = f() }); return v }
+}
+
+func OnceValues[T1, T2 any](f func() (T1, T2)) func() (T1, T2) {
+	var o Once
+	var v1 T1
+	var v2 T2
+	return func() (T1, T2) { o.Do(func() { v1, v2 = f() }); return v1, v2 }
+}
+
 // Cond: Wait releases L, blocks until a later Signal/Broadcast, re-acquires L.
 type Cond struct {
 	L   Locker
